@@ -51,6 +51,11 @@ impl<T: RealNumber> F1<T> {
         let p = Precision {}.get_score(y_true, y_pred);
         let r = Recall {}.get_score(y_true, y_pred);
 
+        if p + r == T::zero() {
+            // no true positive: by the confusion counts the score is 0, not 0/0
+            return T::zero();
+        }
+
         (T::one() + beta2) * (p * r) / (beta2 * p + r)
     }
 }
